@@ -122,6 +122,15 @@ def jobs_for(prop, tier, seed):
             skipped.append(ident)
         else:
             jobs.append(('refactoring', ident, prop, ov, None))
+    if tier != 'quick':
+        for (ident, p, patch) in corpus.benign_patches():
+            if p != prop:
+                continue
+            ov = apply_unified_diff(patch)
+            if ov is None:
+                skipped.append('benign/' + ident)
+            else:
+                jobs.append(('refactoring', 'benign/' + ident, prop, ov, None))
     for (ident, p, patch, meta) in seeds:
         ov = apply_unified_diff(patch)
         if ov is None:
@@ -158,6 +167,10 @@ def run(prop, tier, seed, base_keys=None):
         elif kind == 'refactoring':
             if status == 'quiet':
                 out['quiet'] += 1
+            elif status == 'analysis-error':
+                # the variant leaves the fragment of some rule: the check would answer "cannot decide" (exit 2) on it,
+                # which is not an alarm; recorded, not gating
+                out.setdefault('undecided_variants', []).append('{} ({})'.format(ident, info))
             else:
                 out['false_alarms'].append('{} ({}: {})'.format(ident, status, info))
         else:
